@@ -328,6 +328,10 @@ class Engine:
                 self.vf.refuted.add(oid)
         self.vf.proved_cache.add((oid, tuple(ob.path)))
         ob.secs = time.time() - t0
+        if os.environ.get("PYVC_DUMP_SMT") and ob.status not in ("sat", "unsat") and ob.smt2:
+            _fn = os.path.join(os.environ["PYVC_DUMP_SMT"], "UNK_" + oid.replace("/", "_").replace(":", "_") + ".smt2")
+            if not os.path.exists(_fn):
+                open(_fn, "w").write(ob.smt2)
         if os.environ.get("PYVC_DEBUG_SAT") and ob.status == "sat" and ob.backend != "skipped":
             print(f"[sat] {oid} {ob.detail[:300]}", flush=True)
             if os.environ.get("PYVC_DUMP_SMT") and ob.smt2:
